@@ -3,6 +3,7 @@
 Decides: the cumulative limit check dominates buffer growth and refuses without touching the buffer; the 413 path; options
 reach every worker's transport and handler; the idle scan covers every parser phase and both time-outs and is driven by the
 periodic timer.  'Exactly' at limit±1 and wall-clock bounds are value/time-level and are not decided."""
+import re
 from .. import cfg, lib, facts
 from ..facts import AnalysisBroken, strip_tmpl
 
@@ -96,8 +97,19 @@ def run(ck):
                 if a.get("op") == "=" and (a.get("recv") or {}).get("f"):
                     setters[a["recv"]["f"]] = f2
     init = lib.single(prog, EP + "init")
-    fac = [l for l in prog.lambdas_in(init)]
+    def nested(fn_):
+        out_ = []
+        for l_ in prog.lambdas_in(fn_):
+            out_.append(l_)
+            out_ += nested(l_)
+        return out_
+    fac = nested(init)
     ck.require(fac, "transport factory lambda not found in Endpoint::init")
+    names_ref, _lr = prog.reference()
+
+    def opt_expand(g_):
+        # helpers of endpoint.cc that did not exist when the rules were written (and lambdas) are looked through
+        return g_.is_lambda or (g_.file.endswith("/server/endpoint.cc") and names_ref is not None and g_.base not in names_ref)
     clone = lib.single(prog, TI + "clone")
     opt_fields = {x["name"] for x in prog.cls(EP + "Options")["fields"]}
     for fl in tfields:
@@ -107,13 +119,26 @@ def run(ck):
             ck.ob("C14-R3", "transport-option:%s" % fl["name"], False, "%s:%s" % (ti["file"], fl["line"]), "", "no setter assigns %s" % q)
             continue
         # factory: setter called with options.<same name>
-        calls = [e for l in fac for e in l.calls(lambda e: (e.get("callee") or "") == st.name)]
-        okf = bool(calls) and all(strip_tmpl((e["args"][0].get("f") or "")) == EP + "Options::" + fl["name"] for e in calls)
+        fcalls = [(e, a_) for l in fac for e, a_ in lib.flat_calls(prog, l, opt_expand) if (e.get("callee") or "") == st.name]
+        calls = [e for e, _a in fcalls]
+        okf = bool(fcalls) and all(a_ and (strip_tmpl((a_[0].get("f") or "")) == EP + "Options::" + fl["name"] or
+                                          re.match(r"^(?:\w+(?:\.|->))*%s$" % re.escape(fl["name"]), (a_[0].get("t") or "").strip())) for _e, a_ in fcalls)
         ck.ob("C14-R3", "factory-sets:%s" % fl["name"], okf and fl["name"] in opt_fields, calls[0].loc if calls else init.loc, init,
               "%s(options.%s) in the transport factory" % (st.name.rsplit("::", 1)[1], fl["name"]))
         cc = [e for e in clone.calls(lambda e: (e.get("callee") or "") == st.name)]
         okc = bool(cc) and all(strip_tmpl((e["args"][0].get("f") or "")) == q and (e["args"][0].get("b") == "this") for e in cc)
         ck.ob("C14-R3", "clone-reapplies:%s" % fl["name"], okc, cc[0].loc if cc else clone.loc, clone, "clone() passes its own %s to the new transport" % fl["name"])
+    # the option is kept in the transport's own unit: a coarser type in Options (or a duration_cast to one in its setter) silently
+    # shortens every configured time-out that is not a multiple of the coarser unit
+    optc = prog.cls(EP + "Options")
+    for fl in tfields:
+        of = [x for x in optc["fields"] if x["name"] == fl["name"]]
+        if not of:
+            continue
+        t_opt, t_tr = (of[0].get("ctype") or of[0]["type"]), (fl.get("ctype") or fl["type"])
+        ck.ob("C14-R3", "option-unit:%s" % fl["name"], t_opt == t_tr, "%s:%s" % (optc["file"], of[0].get("line", optc["line"])), "",
+              "Options::%s and TransportImpl::%s are both %s" % (fl["name"], fl["name"], t_tr) if t_opt == t_tr else
+              "Options::%s is %s but the transport measures in %s: a configured value is truncated on the way" % (fl["name"], t_opt, t_tr))
     # handler limits
     for fnname in ("init", "setHandler"):
         fn = lib.single(prog, EP + fnname)
@@ -157,6 +182,21 @@ def run(ck):
                 gq = (t.get(side) or {}).get("g") or ""
                 if gq.endswith("::Id"):
                     cmp_ids.add(gq.rsplit("::", 1)[0])
+    # table-driven scan: a local table whose rows are {<Step>::Id, <local predicate>}; the ids count as compared against, and each
+    # row's predicate is a decision of its own
+    table_rows = []
+    for d_ in cip.events("decl"):
+        it = (d_.get("init") or {}).get("t") or ""
+        rows = re.findall(r"\{\s*((?:\w+::)*\w+)::Id\s*,\s*(\w+)\s*\}", it)
+        if len(rows) >= 2:
+            lamvars = {x["var"]: x for x in cip.events("decl") if x.get("var") and "(lambda at " in (x.get("type") or "")}
+            for sid, pv_ in rows:
+                cmp_ids.add(sid if sid.startswith("Pistache") else H + "Private::" + sid.split("::")[-1])
+                if pv_ in lamvars:
+                    lid = re.search(r"lambda at ([^)]+)\)", lamvars[pv_]["type"])
+                    lfs = [lf for lf in prog.lambdas_in(cip) if lid and lf.id.split("#in:")[0] == "lambda@" + lid.group(1)]
+                    if lfs:
+                        table_rows.append((sid, lfs[0]))
     for stp in sorted(installed):
         full = stp if stp.startswith("Pistache") else H + "Private::" + stp.split("::")[-1]
         ck.ob("C14-R4", "phase-covered:%s" % full.rsplit("::", 1)[1], full in cmp_ids, cip.loc, cip, "checkIdlePeers compares step()->id() with %s::Id" % full.rsplit("::", 1)[1])
@@ -178,9 +218,17 @@ def run(ck):
         return bool(guards or lor_guards)
     body_ok = True
     ndec = 0
+    for sid, lf in table_rows:
+        for r_ in lf.events("return"):
+            ndec += 1
+            refs_all |= set(r_.get("refs") or [])
+            if BT not in (r_.get("refs") or []):
+                body_ok = False
     for e in idle_push:
         if guarded_by_body_timeout(cip, e):
             ndec += 1
+            continue
+        if table_rows:
             continue
         # guarded by a predicate helper: its non-false returns are the decisions
         preds = [g_ for g_ in creg if g_.id != cip.id and not g_.is_lambda and any(cfg.edge_dominates(cip, bid, k_, e) for bid, k_ in lib.result_edges(cip, g_.base, True))]
